@@ -18,6 +18,8 @@ For both protocols:
 * `…_norm_fields`  what `norm` can change, field by field (everything else is preserved);
 * `…_reencode`     `as_bytes (norm p) = as_bytes p`, and `…_enc_dec_enc`: `as_bytes ∘ from_bytes ∘ as_bytes
                    = as_bytes`.
+* `ars_trailer_sites` … `ars_straddle_device_user`: where the trailer octets `10 80` can occur across item
+                   boundaries of a serialised registration, and the round trip on exactly those messages.
 Text, addresses and identifiers are opaque octet strings; Python's UTF-8 / UTF-16-LE codecs are
 trusted (identifiers are assumed to be what `str.encode("utf-8")` yields: well-formed UTF-8).
 -/
@@ -279,5 +281,150 @@ example : Ars.wf exBom = true ∧
     Ars.fromBytes [0, 18, 0x80, 0x20, 7, 0xEF, 0xBB, 0xBF, 0x32, 0x30, 0x30, 0x31, 2, 0x0D, 0x0A, 2, 0, 0, 0x10, 0x80]
       = .ok exBom :=
   ⟨by decide, by rfl, by rfl⟩
+
+theorem ars_norm_csbk (p : Ars.Msg) : (Ars.norm p).csbk = p.csbk := by
+  obtain ⟨⟨hm, ha, hp, hc, t⟩, rrh, rsh, dev, user, pw, csbk⟩ := p
+  cases t <;> rfl
+
+/-! ### the trailer octets `10 80` across a field boundary (hardening: a protocol constant straddling two items)
+
+`ars_utf8_no_trailer` excludes `10 80` at the END of a field.  The octets do occur INSIDE serialised
+registration requests, formed by two neighbouring items: an identifier ending in U+0010 followed by a
+field of exactly 128 octets.  A serialiser that "does not emit the trailer twice" or a parser that looks
+for the trailer anywhere behind the header (seeded changes C16-F, C16-E) is wrong exactly there. -/
+
+/-- general form: for an ASCII octet `a` and a continuation octet `b` (0x80..0xBF) the pair `a b` never lies
+inside an identifier; in the part of a registration request in front of the trailer (length prefix `hi lo`,
+header octet, optional registration header `r`, three len-value fields) it can only be formed at an item
+boundary: inside the length prefix, length prefix + header, header + next octet, registration header +
+device length, last octet of the device item + user length, last octet of the user item + password length
+(`lastOf v` is the last octet of `v`, or the length octet 0 of an empty field) -/
+theorem ars_front_pairs (a b : Nat) (ha : a < 0x80) (hb : Ars.isCont b = true) (r d u w : Bytes)
+    (hi lo hbyte : Nat) (hr : r.length ≤ 1) (vd : Ars.validUtf8 d = true) (vu : Ars.validUtf8 u = true)
+    (vw : Ars.validUtf8 w = true) :
+    Ars.hasPair a b (hi :: lo :: hbyte :: (r ++ (d.length :: d) ++ (u.length :: u) ++ (w.length :: w)))
+      = ((hi == a && lo == b) || (lo == a && hbyte == b)
+          || (hbyte == a && (r ++ [d.length]).head? == some b)
+          || (r.getLast? == some a && d.length == b)
+          || (Ars.lastOf d == a && u.length == b) || (Ars.lastOf u == a && w.length == b)) :=
+  Ars.reg_front_pairs a b ha hb r d u w hi lo hbyte hr vd vu vw
+
+/-- where exactly `10 80` occurs in a serialised registration request, the trailer itself set aside
+(`front` = everything in front of the trailer): (1) low octet of the length prefix 0x10 + header octet 0x80
+(has_more_headers only, device registration), (2) header octet 0x10 (control flag only, device
+registration, no registration header) + device identifier of 128 octets, (3) device identifier ending in
+U+0010 + user identifier of 128 octets, (4) user identifier ending in U+0010 + password of 128 octets —
+and nowhere else -/
+theorem ars_trailer_sites (p : Ars.Msg) (h : Ars.wf p = true) (ht : p.header.ptype.isReg = true) (bs : Bytes)
+    (hb : Ars.asBytes p = .ok bs) :
+    ∃ hbyte front, Ars.headerByte p.header = .ok hbyte ∧ bs = front ++ Ars.trailer p ∧
+      (Ars.hasPair 0x10 0x80 front = true ↔
+        ((bs.length - 2) % 256 = 0x10 ∧ hbyte = 0x80) ∨
+        (hbyte = 0x10 ∧ (p.device.getD []).length = 0x80) ∨
+        ((p.device.getD []).getLast? = some 0x10 ∧ (p.user.getD []).length = 0x80) ∨
+        ((p.user.getD []).getLast? = some 0x10 ∧ (p.password.getD []).length = 0x80)) :=
+  Ars.reg_trailer_sites p h ht bs hb
+
+/-- query, de-registration and acknowledgement messages: `10 80` occurs nowhere but as the trailer -/
+theorem ars_trailer_sites_other (p : Ars.Msg) (h : Ars.wf p = true) (ht : p.header.ptype.isReg = false)
+    (bs : Bytes) (hb : Ars.asBytes p = .ok bs) :
+    ∃ front, bs = front ++ Ars.trailer p ∧ Ars.hasPair 0x10 0x80 front = false :=
+  Ars.other_trailer_sites p h ht bs hb
+
+/-- the instance of `ars_dec_enc` / `ars_reencode` on exactly those messages: with `10 80` present in front
+of the trailer position (any of the four sites), with or without the real trailer, parsing gives the
+normal form, the CSBK flag is the one the message was built with, and re-serialising gives the same octets -/
+theorem ars_straddle_roundtrip (p : Ars.Msg) (h : Ars.wf p = true) (ht : p.header.ptype.isReg = true)
+    (bs : Bytes) (hb : Ars.asBytes p = .ok bs)
+    (hs : ((bs.length - 2) % 256 = 0x10 ∧ Ars.headerByte p.header = .ok 0x80) ∨
+          (Ars.headerByte p.header = .ok 0x10 ∧ (p.device.getD []).length = 0x80) ∨
+          ((p.device.getD []).getLast? = some 0x10 ∧ (p.user.getD []).length = 0x80) ∨
+          ((p.user.getD []).getLast? = some 0x10 ∧ (p.password.getD []).length = 0x80)) :
+    ∃ front, bs = front ++ Ars.trailer p ∧ Ars.hasPair 0x10 0x80 front = true ∧
+      Ars.fromBytes bs = .ok (Ars.norm p) ∧ (Ars.norm p).csbk = p.csbk ∧
+      Ars.asBytes (Ars.norm p) = .ok bs := by
+  obtain ⟨hbyte, front, hh, hf, hiff⟩ := Ars.reg_trailer_sites p h ht bs hb
+  refine ⟨front, hf, hiff.mpr ?_, Ars.dec_enc p h bs hb, ars_norm_csbk p, by rw [Ars.reencode p h, hb]⟩
+  rcases hs with ⟨h1, h2⟩ | ⟨h1, h2⟩ | h3 | h4
+  · rw [hh] at h2; injection h2 with h2; exact Or.inl ⟨h1, h2⟩
+  · rw [hh] at h1; injection h1 with h1; exact Or.inr (Or.inl ⟨h1, h2⟩)
+  · exact Or.inr (Or.inr (Or.inl h3))
+  · exact Or.inr (Or.inr (Or.inr h4))
+
+/-- the input class of C16-E / C16-F, built from parts: ANY registration header and flags, a device
+identifier `pre` + U+0010, a user identifier of exactly 128 octets, any password, with or without trailer:
+the message serialises, contains `10 80` across the device / user boundary, and still parses back to the
+fields it was built from (CSBK flag included) and re-serialises to the same octets -/
+theorem ars_straddle_device_user (hd : Ars.FirstHeader) (rrh : Option Ars.Rrh) (pre u w : Bytes) (csbk : Bool)
+    (ht : hd.ptype.isReg = true) (hr : hd.more = false ∨ rrh.isSome = true)
+    (h1 : Ars.validUtf8 pre = true) (l1 : pre.length ≤ 254)
+    (h2 : Ars.validUtf8 u = true) (l2 : u.length = 0x80)
+    (h3 : Ars.validUtf8 w = true) (l3 : w.length ≤ 255) :
+    ∃ bs front q, Ars.asBytes ⟨hd, rrh, none, some (pre ++ [0x10]), some u, some w, csbk⟩ = .ok bs ∧
+      bs = front ++ (if csbk then [0x10, 0x80] else []) ∧ Ars.hasPair 0x10 0x80 front = true ∧
+      Ars.fromBytes bs = .ok q ∧ q.csbk = csbk ∧ q.device = some (pre ++ [0x10]) ∧ q.user = some u ∧
+      q.password = some w ∧ Ars.asBytes q = .ok bs := by
+  have hv : Ars.okId (some (pre ++ [0x10])) = true := by
+    have := Ars.okId_decorate pre [0x10] [] h1 (by decide) rfl (by simp; omega)
+    simpa using this
+  have hwf : Ars.wf ⟨hd, rrh, none, some (pre ++ [0x10]), some u, some w, csbk⟩ = true := by
+    obtain ⟨hm, ha, hp, hc, t⟩ := hd
+    have hu : Ars.okId (some u) = true := by simp [Ars.okId, h2]; omega
+    have hw : Ars.okId (some w) = true := by simp [Ars.okId, h3]; omega
+    have h0 : (!hm || rrh.isSome) = true := by
+      rcases hr with hr | hr
+      · simp only at hr; simp [hr]
+      · simp [hr]
+    cases t <;> simp [Ars.PduType.isReg] at ht <;> simp only [Ars.wf, h0, hv, hu, hw, Bool.and_self]
+  obtain ⟨bs, hb⟩ := Ars.asBytes_total _ hwf
+  obtain ⟨front, hf, hp, hdec, hc, hre⟩ := ars_straddle_roundtrip _ hwf ht bs hb
+    (Or.inr (Or.inr (Or.inl ⟨by simp, by simpa using l2⟩)))
+  refine ⟨bs, front, _, hb, ?_, hp, hdec, hc, ?_, ?_, ?_, hre⟩
+  · rw [hf]; simp [Ars.trailer, Ars.csbk_val]
+  · obtain ⟨hm, ha, hp, hc, t⟩ := hd
+    cases t <;> simp [Ars.PduType.isReg] at ht <;> simp [Ars.norm, Ars.normId]
+  · obtain ⟨hm, ha, hp, hc, t⟩ := hd
+    cases t <;> simp [Ars.PduType.isReg] at ht <;> simp [Ars.norm, Ars.normId]
+  · obtain ⟨hm, ha, hp, hc, t⟩ := hd
+    cases t <;> simp [Ars.PduType.isReg] at ht <;> simp [Ars.norm, Ars.normId]
+
+/-- kernel-checked instances of all four sites, each without and with the real trailer (`Ars.straddleChk`:
+in range, serialises, `10 80` present in front of the trailer, parses to the normal form with the CSBK flag
+it was built with, re-serialises to the same octets): device "AB" U+0010 + 128-octet user identifier (the
+demo input of C16-E / C16-F); the same coincidence at both field boundaries of one message; header octet
+0x10 + 128-octet device identifier; low length octet 0x10 + header octet 0x80 -/
+def exStraddle (c : Bool) : Ars.Msg := ⟨⟨false, false, false, false, .userReg⟩, none, none,
+  some [0x41, 0x42, 0x10], some (List.replicate 128 0x75), some [0x70, 0x77], c⟩
+
+def exStraddleTwice (c : Bool) : Ars.Msg := ⟨⟨true, true, true, false, .devReg⟩, some ⟨.refresh, .utf8⟩, none,
+  some [0x10], some (List.replicate 127 0x75 ++ [0x10]), some (List.replicate 64 0xC2 |>.flatMap (fun x => [x, 0x80])), c⟩
+
+def exHeaderLength (c : Bool) : Ars.Msg := ⟨⟨false, false, false, true, .devReg⟩, none, none,
+  some (List.replicate 128 0x31), none, some [], c⟩
+
+def exLengthHeader (c : Bool) : Ars.Msg := ⟨⟨true, false, false, false, .devReg⟩, some ⟨.initial, .utf8⟩, none,
+  some (List.replicate (if c then 9 else 11) 0x31), some [], none, c⟩
+
+example : ∀ c ∈ [false, true], Ars.straddleChk (exStraddle c) = true ∧ Ars.straddleChk (exStraddleTwice c) = true ∧
+    Ars.straddleChk (exHeaderLength c) = true ∧ Ars.straddleChk (exLengthHeader c) = true := by decide +kernel
+
+example : (Ars.asBytes (exStraddle true)).toOption =
+    some ([0, 139, 0x05, 3, 0x41, 0x42, 0x10, 0x80] ++ List.replicate 128 0x75 ++ [2, 0x70, 0x77, 0x10, 0x80]) ∧
+    (Ars.asBytes (exHeaderLength false)).toOption = some ([0, 132, 0x10, 0x80] ++ List.replicate 128 0x31 ++ [0, 0]) ∧
+    (Ars.asBytes (exLengthHeader true)).toOption =
+      some ([0, 0x10, 0x80, 0x20, 9] ++ List.replicate 9 0x31 ++ [0, 0, 0x10, 0x80]) := by decide +kernel
+
+/-- TMS: addresses and texts are opaque, so constants across the address / optional header / text boundaries
+are instances of `tms_dec_enc`; kernel-checked: UCS-2 CR LF formed by address tail + one-octet optional
+header (s/n 0), by optional header 0x0D (s/n 13) + text head, `10 80` formed by address tail + optional
+header 80 04 and by address length 0x10 + address head, `FF FE` by address tail + text head position -/
+example : ∀ x ∈ ([([0x0D, 0x00, 0x0A], 0, none, [0x61, 0]), ([], 13, none, [0x00, 0x0A, 0x00, 0x61]),
+      ([0x41, 0x10], 0, some Tms.Encoding.ucs2le, [0x0D, 0, 0x0A, 0]),
+      (0x80 :: List.replicate 15 0, 85, some Tms.Encoding.ucs2le, [0x10, 0x80]),
+      ([0xFF], 30, none, [0xFE, 0xFF])] : List (Bytes × Nat × Option Tms.Encoding × Bytes)),
+    ∀ ack ∈ [false, true],
+      (Tms.asBytes ⟨⟨false, ack, false, .text⟩, x.1, none, some x.2.1, x.2.2.1, some x.2.2.2⟩).toOption.bind
+        (fun bs => (Tms.fromBytes bs).toOption.map (fun q => (q.address, q.seq, q.message, (Tms.asBytes q).toOption == some bs)))
+        = some (x.1, some x.2.1, some x.2.2.2, true) := by decide +kernel
 
 end Dmr.C16
